@@ -12,7 +12,7 @@ use proptest::prelude::*;
 use serde::{Deserialize, Serialize};
 use serde_json::json;
 
-pub const RULE: &str = "generated: a valid request in which ONE authentication input is duplicated with a DIFFERENT value, in either order: a second Authorization header (another AWS4 one or another scheme); a repeated Credential / SignedHeaders / Signature inside the header; repeated X-Amz-Credential / Date / SignedHeaders / Signature / Security-Token / Algorithm query parameters (in the URL, or URL + folded body); a second X-Amz-Date header, or a Date header next to X-Amz-Date; a second security-token header; or both carriers at once. The duplicate is inserted either before signing (so the signature covers both values) or after. The reference model applies the documented selection (first Authorization header, last parameter inside it, first query value, first X-Amz-Date before any Date, first token; both carriers => refuse) and says whether the request must be accepted; when it is, the provider must have been asked for the access key and token of the selected input. Non-trivial: every specified case (each has a differing duplicate); must-accept and must-reject populations are reported per kind of duplicate; distinct by (duplicate kind, order, request digest).";
+pub const RULE: &str = "generated: a valid request in which ONE authentication input is duplicated with a DIFFERENT value, in either order: a second Authorization header (another AWS4 one or another scheme); a repeated Credential / SignedHeaders / Signature inside the header; repeated X-Amz-Credential / Date / SignedHeaders / Signature / Security-Token / Algorithm query parameters (in the URL, or URL + folded body); a second X-Amz-Date header, or a Date header next to X-Amz-Date; a second security-token header; or both carriers at once. The duplicate is inserted either before signing (so the signature covers both values) or after. Between two occurrences of a parameter inside the Authorization header there may be 0-1000 unknown parameters and empty elements. The reference model applies the documented selection (first Authorization header, last parameter inside it, first query value, first X-Amz-Date before any Date, first token; both carriers => refuse) and says whether the request must be accepted; when it is, the provider must have been asked for the access key and token of the selected input. Non-trivial: every specified case (each has a differing duplicate); must-accept and must-reject populations are reported per kind of duplicate; distinct by (duplicate kind, order, request digest).";
 
 #[derive(Clone, Copy, Debug, Serialize, Deserialize, PartialEq, Eq)]
 pub enum DupKind {
